@@ -151,7 +151,16 @@ CallIVStatesOnly(op, v) ==
        IN  x0' = xx /\ Record(op, v, theta, xx)
     /\ UNCHANGED <<wiring, theta>>
 
+(* Someone else -- a second loss object built on the same model, or the user -- re-binds the shared model's    *)
+(* parameters and initial values between two calls.  The loss object's registers are its own: nothing changes, *)
+(* and every later result is what it would have been without the disturbance.                                  *)
+Disturb ==
+    /\ Len(calls) < MaxCalls
+    /\ Record("disturb", <<>>, theta, x0)
+    /\ UNCHANGED <<wiring, theta, x0>>
+
 Next == \/ \E op \in POps \cup IOps : CallNone(op)
+        \/ Disturb
         \/ \E op \in POps : \E v \in Values(Len(FreeP)) : CallP(op, v)
         \/ \E op \in IOps : \E v \in Values(Len(FreeP) + Len(FreeS)) : CallIV(op, v)
         \/ \E op \in IOps : \E v \in Values(Len(FreeS)) : CallIVStatesOnly(op, v)
